@@ -183,10 +183,33 @@ func (namesStream) Execute(c Case) {
 		pre0 := snapshotTree(namesRoot)
 		rerr0 := cache.RemoveSpec(name + ".absent")
 		ch0, nd0 := diffTree(pre0, snapshotTree(namesRoot))
+		// the name to be written exists already as a link - symbolic or hard - to a file kept elsewhere: the write
+		// replaces the directory entry, the file elsewhere stays as it is
+		linkedOutside, linkedContent := "", []byte(nil)
+		if cl, _ := c["clutter"].(bool); cl && !lastMissing && !strings.Contains(name, "/") {
+			tpath := filepath.Join(dirs[len(dirs)-1], name)
+			if e := filepath.Ext(name); e != ".json" && e != ".yaml" {
+				tpath += ".yaml"
+			}
+			linkedOutside = filepath.Join(namesRoot, "kept-elsewhere.json")
+			linkedContent, _ = json.Marshal(namesSpec("elsewhere.com", "kept"))
+			_ = os.WriteFile(linkedOutside, linkedContent, 0o644)
+			_ = os.Remove(tpath)
+			if len(name)%2 == 0 {
+				_ = os.Symlink(linkedOutside, tpath)
+			} else {
+				_ = os.Link(linkedOutside, tpath)
+			}
+		}
 		before := snapshotTree(namesRoot)
 		spec := namesSpec(vendor, class)
 		spec.Devices[0].ContainerEdits.Env = []string{"A=new"}
 		err := cache.WriteSpec(spec, name)
+		if linkedOutside != "" {
+			if now, rerr := os.ReadFile(linkedOutside); rerr != nil || string(now) != string(linkedContent) {
+				obs["aux"] = []any{"WriteSpec wrote through a link: a file outside the Spec directory that the name was linked to has changed"}
+			}
+		}
 		after := snapshotTree(namesRoot)
 		changed, newDirs := diffTree(before, after)
 		obs["err"] = err != nil
@@ -194,7 +217,8 @@ func (namesStream) Execute(c Case) {
 		if shadowRuns < 6 {
 			shadowRuns++
 			if msg := shadowRemoval(shadowRuns%2 == 0); msg != "" {
-				obs["aux"] = []any{msg}
+				prev, _ := obs["aux"].([]any)
+				obs["aux"] = append(prev, msg)
 			}
 		}
 		obs["specpath"] = ""
